@@ -138,156 +138,175 @@ theorem noDynCoef_of_B {res : Res} {m0 : Content} {v : Name} (h : noDynCoefB res
   rw [hc] at this
   simpa using this
 
-theorem stoich_nodyn {c : Content} {cache : Cache} {v : Name} {st : List (Name × Rat)}
-    {s : Row} {t : Rat} (hc : createCache c = .ok cache)
-    (hnd : (cache.dynStoich.lookup v).getD [] = [])
-    (h : stoichOfVar c v = .ok st) (hp : ∃ row, pointRow c t s = .ok row) :
-    stoichOfVarAt c v (some s) t = .ok st := by
-  unfold stoichOfVar stoichOfVarAt at h
-  unfold stoichOfVarAt
-  rw [hc] at h ⊢
-  simp only at h ⊢
-  have hdep : ∃ dep, getArgsEnv c cache s t = .ok dep := by
-    obtain ⟨row, hrow⟩ := hp
-    cases hg : getArgsEnv c cache s t with
-    | error e => simp [pointRow, hc, pointEnv, hg] at hrow
-    | ok dep => exact ⟨dep, rfl⟩
-  obtain ⟨dep, hdep⟩ := hdep
-  simp only [resolveVars, Option.getD_some]
-  rw [hdep]
-  simp only
-  split at h
-  · cases h
-  · split at h
-    · cases h
-    · rw [hnd] at h ⊢
-      simpa [overlayVar] using h
+theorem zipE_eq {α β γ} (f : α → β → Except Err γ) :
+    ∀ (a : List α) (b : List β), zipE f a b = zipWithE f a b := by
+  intro a
+  induction a with
+  | nil => intro b; cases b <;> rfl
+  | cons x xs ih =>
+    intro b
+    cases b with
+    | nil => rfl
+    | cons y ys =>
+      unfold zipE zipWithE
+      rw [ih ys]
+      cases f x y with
+      | error e => rfl
+      | ok c => cases zipWithE f xs ys <;> rfl
 
-theorem zipWithE_map {α β γ} (f : α → β → Except Err γ) (g : α → γ) (l : List α) (m : List β)
-    (hl : l.length = m.length) (hf : ∀ a b, a ∈ l → b ∈ m → f a b = .ok (g a)) :
-    zipWithE f l m = .ok (l.map g) := by
-  induction l generalizing m with
-  | nil => cases m with
+/-- coefficients first, then the rows = coefficient and row together, row by row -/
+theorem zip_fuse {α β γ δ} (g : β → Except Err γ) (h : α → γ → Except Err δ) :
+    ∀ (raw : List β) (fl : List α) (sts : List γ) (out : List δ),
+      mapE g raw = .ok sts → zipWithE h fl sts = .ok out →
+      zipWithE (bindRow g h) fl raw = .ok out := by
+  intro raw
+  induction raw with
+  | nil =>
+    intro fl sts out hm hz
+    simp [mapE] at hm; subst hm
+    cases fl with
+    | nil => simpa [zipWithE] using hz
+    | cons _ _ => simp [zipWithE] at hz
+  | cons s raw ih =>
+    intro fl sts out hm hz
+    unfold mapE at hm
+    split at hm
+    · cases hm
+    · rename_i st hst
+      split at hm
+      · cases hm
+      · rename_i sts' hsts
+        cases hm
+        cases fl with
+        | nil => simp [zipWithE] at hz
+        | cons r fl =>
+          unfold zipWithE at hz ⊢
+          simp only [bindRow, hst]
+          split at hz
+          · cases hz
+          · rename_i c hc
+            split at hz
+            · cases hz
+            · rename_i cs hcs
+              cases hz
+              rw [ih fl sts' cs hsts hcs]
+
+/-- scaling by no name leaves a row as it is -/
+theorem scaleRowWith_nil (sgn : Rat) (r : Rat × Row) (st : List (Name × Rat)) :
+    scaleRowWith [] sgn r st = .ok r := by
+  obtain ⟨t, row⟩ := r
+  simp only [scaleRowWith, scaleTable, mapE, List.map_cons, List.map_nil]
+  have : (row.map fun kv => match ([] : List (Name × Rat)).lookup kv.1 with
+      | some x => (kv.1, kv.2 * x)
+      | none => kv) = row := by
+    induction row with
+    | nil => rfl
+    | cons a as ih => simp [List.lookup]
+  simp [this]
+
+/-- with no name selected and as many flux rows as raw rows, the row-by-row form returns the rows as they are -/
+theorem zip_no_names (g : (Rat × Row) → Except Err (List (Name × Rat))) (sgn : Rat) :
+    ∀ (raw fl : Table) (sts : List (List (Name × Rat))), mapE g raw = .ok sts → fl.length = raw.length →
+      zipWithE (bindRow g (scaleRowWith [] sgn)) fl raw = .ok fl := by
+  intro raw
+  induction raw with
+  | nil =>
+    intro fl sts _ hl
+    cases fl with
     | nil => rfl
     | cons _ _ => simp at hl
-  | cons a as ih =>
-    cases m with
-    | nil => simp at hl
-    | cons b bs =>
-      unfold zipWithE
-      rw [hf a b (by simp) (by simp)]
-      simp only
-      rw [ih bs (by simpa using hl) (fun x y hx hy => hf x y (by simp [hx]) (by simp [hy]))]
-      rfl
+  | cons s raw ih =>
+    intro fl sts hm hl
+    unfold mapE at hm
+    split at hm
+    · cases hm
+    · rename_i st hst
+      split at hm
+      · cases hm
+      · rename_i sts' hsts
+        cases fl with
+        | nil => simp at hl
+        | cons r fl =>
+          unfold zipWithE
+          simp only [bindRow, hst]
+          rw [scaleRowWith_nil]
+          rw [ih fl sts' hsts (by simpa using hl)]
 
-theorem scaleSeg_spec {m0 c1 : Content} {cache : Cache} {v : Name} {names : List Name}
-    {sgn : Rat} {tbl a s s' : Table} {p : Pars} {st : List (Name × Rat)}
-    (hw0 : withPars m0 p = .ok c1) (hc : createCache c1 = .ok cache)
-    (hnd : (cache.dynStoich.lookup v).getD [] = [])
-    (ha : mapE (specRowFn c1) tbl = .ok a) (hlen : s.length = tbl.length)
-    (hst : stoichOfVar c1 v = .ok st) (hs : scaleTable st names sgn s = .ok s') :
+/-- one segment of the scaled branch is the specified one once the threaded model is the model with the segment's
+    snapshot applied (the flux table has the raw table's length) -/
+theorem scaleSeg_spec {m0 c1 : Content} {v : Name} {names : List Name}
+    {sgn : Rat} {tbl s s' : Table} {p : Pars}
+    (hw0 : withPars m0 p = .ok c1) (hlen : s.length = tbl.length)
+    (hs : scaleSegRows c1 v names sgn s tbl = .ok s') :
     specScaleSeg m0 v names sgn s (tbl, p) = .ok s' := by
-  unfold specScaleSeg
-  simp only
-  rw [hw0]
-  simp only
-  rw [scaleTable_eq] at hs
+  have hspec : specScaleSeg m0 v names sgn s (tbl, p) =
+      zipWithE (bindRow (fun (s : Rat × Row) => stoichOfVarAt c1 v (some s.2) s.1) (scaleRowWith names sgn)) s tbl := by
+    unfold specScaleSeg
+    simp only
+    rw [hw0]
+  rw [hspec]
+  unfold scaleSegRows at hs
   split at hs
   · cases hs
-  · rename_i coefs hcoefs
-    cases hs
-    apply zipWithE_map _ _ _ _ hlen
-    intro r row _ hrow
-    have hp : ∃ x, pointRow c1 row.1 row.2 = .ok x := by
-      have h0 := (mapE_ok_iff _ _ _).1 ha
-      clear ha hlen
-      induction h0 with
-      | nil => simp at hrow
-      | cons hab _ ih =>
-        simp at hrow
-        rcases hrow with rfl | hrow
-        · unfold specRowFn at hab
-          split at hab
-          · cases hab
-          · exact ⟨_, by assumption⟩
-        · exact ih hrow
-    rw [stoich_nodyn hc hnd hst hp]
-    simp only
-    rw [scaleTable_eq, hcoefs]
-    simp
+  · rename_i sts hsts
+    by_cases hn : names.isEmpty = true
+    · simp only [hn, if_true] at hs
+      cases hs
+      have : names = [] := by simpa using hn
+      subst this
+      exact zip_no_names _ sgn tbl s sts hsts hlen
+    · simp only [hn, Bool.false_eq_true, if_false] at hs
+      rw [zipE_eq] at hs
+      exact zip_fuse _ _ tbl s sts s' hsts hs
 
 theorem scaleLoop_spec {m0 : Content} {v : Name} {names : List Name} {sgn : Rat} :
-    ∀ (tabs : List Table) (ps : List Pars) (T sel : List Table) (c : Content)
+    ∀ (tabs : List Table) (ps : List Pars) (sel : List Table) (c : Content)
       (out : List Table) (c' : Content),
       PlainEq m0 c → (∀ p ∈ ps, Covers m0 p) → (∀ p ∈ ps, PlainOnly m0 p) →
-      (∀ p ∈ ps, ∀ c cache, withPars m0 p = .ok c → createCache c = .ok cache →
-        (cache.dynStoich.lookup v).getD [] = []) →
-      zipWithE (specSegArgs m0) tabs ps = .ok T →
       sel.map List.length = tabs.map List.length →
-      scaleLoop v names sgn c sel ps = .ok (out, c') →
+      scaleLoop v names sgn c sel tabs ps = .ok (out, c') →
       zipWithE (specScaleSeg m0 v names sgn) sel (tabs.zip ps) = .ok out ∧ PlainEq m0 c' := by
   intro tabs
   induction tabs with
   | nil =>
-    intro ps T sel c out c' hc _ _ _ hT hlen h
+    intro ps sel c out c' hc _ _ _ h
     cases ps with
     | nil =>
       cases sel with
       | nil => simp [scaleLoop] at h; obtain ⟨rfl, rfl⟩ := h; exact ⟨rfl, hc⟩
-      | cons _ _ => simp at hlen
-    | cons p ps => simp [zipWithE] at hT
+      | cons _ _ => simp [scaleLoop] at h
+    | cons p ps => cases sel <;> simp [scaleLoop] at h
   | cons tbl ts ih =>
-    intro ps T sel c out c' hc hcov hpo hnd hT hlen h
+    intro ps sel c out c' hc hcov hpo hlen h
     cases ps with
-    | nil => simp [zipWithE] at hT
+    | nil => cases sel <;> simp [scaleLoop] at h
     | cons p ps =>
       cases sel with
-      | nil => simp at hlen
+      | nil => simp [scaleLoop] at h
       | cons s ss =>
         simp only [List.map_cons, List.cons.injEq] at hlen
-        unfold zipWithE at hT
-        split at hT
-        · cases hT
-        · rename_i a ha
-          split at hT
-          · cases hT
-          · rename_i as has
-            cases hT
-            unfold scaleLoop at h
+        unfold scaleLoop at h
+        split at h
+        · cases h
+        · rename_i c1 hw
+          split at h
+          · cases h
+          · rename_i s' hs'
             split at h
             · cases h
-            · rename_i c1 hw
-              split at h
-              · cases h
-              · rename_i st hst
-                split at h
-                · cases h
-                · rename_i s' hs'
-                  split at h
-                  · cases h
-                  · rename_i rest c2 hrest
-                    cases h
-                    have hc1 : PlainEq m0 c1 := withPars_plainEq (hpo p (by simp)) hc hw
-                    have hw0 : withPars m0 p = .ok c1 := by
-                      rw [← withPars_absorb hc (hcov p (by simp))]; exact hw
-                    obtain ⟨hz, hc2⟩ := ih ps as ss c1 rest c' hc1
-                      (fun q hq => hcov q (by simp [hq])) (fun q hq => hpo q (by simp [hq]))
-                      (fun q hq => hnd q (by simp [hq])) has hlen.2 hrest
-                    refine ⟨?_, hc2⟩
-                    rw [specSegArgs_eq, hw0] at ha
-                    simp only at ha
-                    have : ∃ cache, createCache c1 = .ok cache := by
-                      unfold stoichOfVar stoichOfVarAt at hst
-                      split at hst
-                      · cases hst
-                      · exact ⟨_, by assumption⟩
-                    obtain ⟨cache, hcache⟩ := this
-                    simp only [List.zip_cons_cons]
-                    unfold zipWithE
-                    rw [scaleSeg_spec hw0 hcache (hnd p (by simp) c1 cache hw0 hcache) ha
-                      hlen.1 hst hs']
-                    simp only
-                    rw [hz]
+            · rename_i rest c2 hrest
+              cases h
+              have hc1 : PlainEq m0 c1 := withPars_plainEq (hpo p (by simp)) hc hw
+              have hw0 : withPars m0 p = .ok c1 := by
+                rw [← withPars_absorb hc (hcov p (by simp))]; exact hw
+              obtain ⟨hz, hc2⟩ := ih ps ss c1 rest c' hc1
+                (fun q hq => hcov q (by simp [hq])) (fun q hq => hpo q (by simp [hq])) hlen.2 hrest
+              refine ⟨?_, hc2⟩
+              simp only [List.zip_cons_cons]
+              unfold zipWithE
+              rw [scaleSeg_spec hw0 hlen.1 hs']
+              simp only
+              rw [hz]
 
 /-! ### the sign filter -/
 
@@ -341,12 +360,10 @@ theorem specAdjust_none (out : List Table) (cc : Bool) :
       else .ok (.frames out) := by
   simp [specAdjust, specNorm, specFactors]
 
-/-- producers / consumers refine the specification, provided a *scaled* request is not
-    made for a variable with a state- or time-dependent coefficient (finding F-C10-2) -/
+/-- producers / consumers refine the specification — scaled or not, whatever the coefficients depend on -/
 theorem getProdConsV_spec {res : Res} {m0 : Content} {k0 : Cache} {st st' : St}
     {prod : Bool} {v : Name} {scaled : Bool} {n : Norm} {cc : Bool} {view : View}
     (wf : WF res m0) (hm0 : createCache m0 = .ok k0) (hi : Inv res m0 st)
-    (hq : scaled = true → NoDynCoef res m0 v)
     (h : getProdConsV res prod v scaled n cc st = .ok (view, st')) :
     specProdCons res m0 prod v scaled n cc = .ok view ∧ Inv res m0 st' ∧
       st'.model = st.model := by
@@ -404,8 +421,8 @@ theorem getProdConsV_spec {res : Res} {m0 : Content} {k0 : Cache} {st st' : St}
               split at h
               · cases h
               · rename_i out c hsc
-                obtain ⟨hz, _⟩ := scaleLoop_spec res.rawVars res.rawPars T sel st1.model out c
-                  hi1.model wf.covers wf.plainOnly (hq rfl) hT hlenS hsc
+                obtain ⟨hz, _⟩ := scaleLoop_spec res.rawVars res.rawPars sel st1.model out c
+                  hi1.model wf.covers wf.plainOnly hlenS hsc
                 rw [hz]; simp only
                 rw [specAdjust_none]
                 split at h
